@@ -43,7 +43,7 @@ class RKAdaptiveStepSolver(object):
         self.yshape = yshape
         self.y0 = y0.reshape(-1)
 
-        direction = ts[1] - ts[0]
+        direction = ts[-1] - ts[0]
         if direction < 0:
             self.ts = -ts
             self.func = lambda t, y: -fcn(-t, y.reshape(yshape), *params).reshape(-1)
@@ -65,7 +65,10 @@ class RKAdaptiveStepSolver(object):
         t0 = self.ts[0]
         ts = self.ts
         f0 = self.func(t0, self.y0)
-        h0 = self.ts[1] - self.ts[0]  # ??? perform more intelligent guess
+        # initial step: the first interval of non-zero length (a zero step size could never grow)
+        dts = self.ts[1:] - self.ts[:-1]
+        nonzero_dts = dts[dts != 0]
+        h0 = nonzero_dts[0] if len(nonzero_dts) > 0 else dts[0]  # ??? perform more intelligent guess
 
         # prepare the results
         nt = len(ts)
@@ -83,6 +86,9 @@ class RKAdaptiveStepSolver(object):
         return err.norm()
 
     def _step(self, rk_state, t1):
+        if rk_state[1] == t1:
+            # zero-length interval (repeated time point): the state is already at t1
+            return rk_state
         t1_achieved = False
         while not t1_achieved:
             rk_state, t1_achieved = self._single_step(rk_state, t1)
